@@ -364,15 +364,23 @@ def run_child(ctx, module, cases, timeout=600, extra_env=None, per_case_restart=
     n = len(cases)
     inp = os.path.join(ctx.tmp, "cases_%s_%d.json" % (module, random.getrandbits(32)))
     json.dump(cases, open(inp, "w"))
+    stalled = 0     # consecutive time-outs without a single finished case
     while start < n:
-        outp = inp + ".out.%d" % start
+        outp = inp + ".out.%d.%d" % (start, stalled)
         open(outp, "w").close()
         cache = tempfile.mkdtemp(prefix="xdg_", dir=ctx.tmp)
+        # The deadline covers a whole batch of cases: scale it with the machine load.  A case is blamed for a
+        # time-out only when it made no progress in two consecutive windows (a real hang: the second window
+        # starts at that case and is short); a batch that is merely slow just continues in a new child.
+        try:
+            load = max(1.0, os.getloadavg()[0] / (os.cpu_count() or 1))
+        except OSError:
+            load = 1.0
         try:
             p = subprocess.run(
                 [PY, "-m", "vlib.impl." + module, inp, outp, str(start)],
                 cwd=ctx.tmp, env=child_env(extra_env, cache_home=cache),
-                capture_output=True, text=True, timeout=timeout,
+                capture_output=True, text=True, timeout=(min(timeout, 300) if stalled else timeout) * min(load, 4.0),
             )
             rc = p.returncode
             err = p.stderr[-2000:]
@@ -387,6 +395,14 @@ def run_child(ctx, module, cases, timeout=600, extra_env=None, per_case_restart=
         results.extend(got)
         start += len(got)
         shutil.rmtree(cache, ignore_errors=True)
+        if rc == -999 and start < n:
+            if got:
+                stalled = 0
+                continue            # slow, not stuck: go on with the remaining cases in a fresh child
+            if stalled == 0:
+                stalled = 1
+                continue            # give the case in progress a second, longer window
+        stalled = 0
         if start < n:
             # child died on case `start`
             if rc == 0:
